@@ -330,7 +330,7 @@ func cloneWithMarkers(ns []*wnNode, mk *int) []*wnNode {
 }
 
 func wnWorkload(ctx *core.Ctx, judge func(cs *core.Case, env *Env, d *wnDoc, out string, lc core.LocalCounts), sampleKind string) {
-	nPol := ctx.N(3000, 24000)
+	nPol := ctx.N(3000, 60000)
 	nDoc := ctx.N(200, 500)
 	fixed := wnFixedPolicies()
 	ctx.Run("wellnested", nPol, func(cs *core.Case) {
